@@ -509,6 +509,29 @@ def alpha_key(text: str) -> str:
     return out
 
 
+def canon_counters(fn_node):
+    """A copy of a function's AST in which the two spellings of a counter step are one: `k = k + c` / `k = c + k` / `k = k - c`
+    (k a name, c an integer literal) become `k += c` / `k -= c`.  Rules that look for `the counter is advanced once` read this."""
+    import ast
+    import copy
+
+    class _C(ast.NodeTransformer):
+        def visit_Assign(self, n):
+            self.generic_visit(n)
+            if len(n.targets) == 1 and isinstance(n.targets[0], ast.Name) and isinstance(n.value, ast.BinOp) and isinstance(n.value.op, (ast.Add, ast.Sub)):
+                k = n.targets[0].id
+                l, r = n.value.left, n.value.right
+                is_c = lambda x: isinstance(x, ast.Constant) and isinstance(x.value, int) and not isinstance(x.value, bool)
+                if isinstance(l, ast.Name) and l.id == k and is_c(r):
+                    return ast.copy_location(ast.AugAssign(target=ast.Name(id=k, ctx=ast.Store()), op=n.value.op, value=r), n)
+                if isinstance(n.value.op, ast.Add) and isinstance(r, ast.Name) and r.id == k and is_c(l):
+                    return ast.copy_location(ast.AugAssign(target=ast.Name(id=k, ctx=ast.Store()), op=ast.Add(), value=l), n)
+            return n
+    out = _C().visit(copy.deepcopy(fn_node))
+    ast.fix_missing_locations(out)
+    return out
+
+
 def returned_exprs(fn_node, within=None):
     """Expressions a function (or the statement list `within`) returns, looking through `tmp = <expr>; return tmp`
     (a local that is assigned exactly once in the function)."""
